@@ -536,6 +536,10 @@ func (q *checker) bcheckAssignment(lhs *a.Expr, op t.ID, rhs *a.Expr) error {
 		if !rhs.Effect().Pure() {
 			// No-op.
 
+		} else if rhs.Mentions(lhs) {
+			// No-op. For "x = x + 1", the rhs is in terms of the old x value
+			// and "x == (x + 1)" is not a fact about the new x value.
+
 		} else if lhs.MType().IsNumType() {
 			q.facts.appendBinaryOpFact(t.IDXBinaryEqEq, lhs, rhs)
 
@@ -596,7 +600,8 @@ func (q *checker) bcheckAssignment(lhs *a.Expr, op t.ID, rhs *a.Expr) error {
 				}
 				return x, nil
 			}
-			if xRHS.Mentions(lhs) {
+			if xRHS.Mentions(lhs) || rhs.Mentions(lhs) {
+				// For "x += x", the rhs is in terms of the old x value.
 				return nil, nil
 			}
 			switch op {
